@@ -300,7 +300,10 @@ def main():
         for b in broken[:6]:
             print("  broken: " + b)
         if new_violations:
-            print("  failing input: " + common.canon(new_violations[0])[:600])
+            v0 = new_violations[0]
+            print("  what: " + str(v0.get("what"))[:300] + "   [key: " + str(v0.get("key"))[:80] + "]")
+            print("  observed: " + common.canon(v0.get("observed"))[:400])
+            print("  failing input: " + common.canon(v0.get("input"))[:600])
             print(f"VIOLATION property={prop} replay={rel}")
         else:
             print(f"VIOLATION property={prop} replay={rel} no-failing-input-found")
